@@ -176,7 +176,10 @@ fn check_algebra(input: &(u8, u8), case: &mut Case) -> Result<(), Fail> {
         w
     };
     for start_reply in [false, true] {
-        let base = if start_reply { QR } else { 0 };
+        // what a fresh packet starts with is the constructor's choice (today: QR for a reply, nothing for a query);
+        // the algebra is stated relative to it
+        let fresh = if start_reply { Packet::new_reply(9) } else { Packet::new_query(9) };
+        let base = observe_bits(&fresh);
         let mk = || {
             let mut p = if start_reply { Packet::new_reply(9) } else { Packet::new_query(9) };
             *p.opcode_mut() = OPCODE::Update;
